@@ -324,7 +324,7 @@ Proof.
 Qed.
 
 Lemma rparse_bad st b st' b' e : bytes (b_pend b) -> rst_ok st -> srtu p st b = (st', b', SBad e) ->
-  (exists k, b' = consume k b /\ k <= buf_len b) /\
+  (exists k, b' = consume k b /\ k <= buf_len b /\ rcons_need st <= k) /\
   forall fut F fi, length (b_pend b ++ fut) < F -> rref_from F st (b_pend b ++ fut) fi = ([], EndBad e).
 Proof.
   intros Hb Hst. destruct st as [|d len|d off]; cbn [srtu].
@@ -332,15 +332,15 @@ Proof.
     assert (Hstep := fun fut F fi => start_step b fut F fi Hb H2).
     destruct (length_mode p (nth 0 (b_pend (consume 1 b)) 0%N)) as [l|o|].
     + destruct (sfull_bad p _ _ _ _ _ _ Hp) as ((k & -> & Hk) & Hr). rewrite consume_len in Hk. split.
-      * exists (1 + k). rewrite consume_consume. split; [reflexivity|lia].
+      * exists (1 + k). rewrite consume_consume. cbn [rcons_need]. repeat split; lia.
       * intros fut F fi HF. change (rref_from F Start (b_pend b ++ fut) fi) with (rref F r (b_pend b ++ fut) fi). rewrite Hstep by assumption. apply Hr.
     + destruct (soffset_bad p _ _ _ _ _ _ Hp) as ((k & -> & Hk) & Hr). rewrite consume_len in Hk. split.
-      * exists (1 + k). rewrite consume_consume. split; [reflexivity|lia].
+      * exists (1 + k). rewrite consume_consume. cbn [rcons_need]. repeat split; lia.
       * intros fut F fi HF. change (rref_from F Start (b_pend b ++ fut) fi) with (rref F r (b_pend b ++ fut) fi). rewrite Hstep by assumption. apply Hr.
-    + inversion Hp; subst. split; [exists 1; split; [reflexivity|lia]|].
+    + inversion Hp; subst. split; [exists 1; cbn [rcons_need]; repeat split; lia|].
       intros fut F fi HF. change (rref_from F Start (b_pend b ++ fut) fi) with (rref F r (b_pend b ++ fut) fi). now rewrite Hstep by assumption.
-  - intros Hp. destruct (sfull_bad p _ _ _ _ _ _ Hp) as (Hk & Hr). split; [exact Hk|]. intros fut F fi _. apply Hr.
-  - intros Hp. destruct (soffset_bad p _ _ _ _ _ _ Hp) as (Hk & Hr). split; [exact Hk|]. intros fut F fi _. apply Hr.
+  - intros Hp. destruct (sfull_bad p _ _ _ _ _ _ Hp) as ((k & -> & Hk) & Hr). split; [exists k; cbn [rcons_need]; repeat split; [exact Hk|lia]|]. intros fut F fi _. apply Hr.
+  - intros Hp. destruct (soffset_bad p _ _ _ _ _ _ Hp) as ((k & -> & Hk) & Hr). split; [exists k; cbn [rcons_need]; repeat split; [exact Hk|lia]|]. intros fut F fi _. apply Hr.
 Qed.
 
 Lemma rparse_need st b st' b' : bytes (b_pend b) -> rst_ok st -> srtu p st b = (st', b', SNeed) ->
@@ -392,7 +392,7 @@ Lemma rtu_some st b st' b' f : wf b -> bytes (b_pend b) -> rst_ok st -> rtu_pars
   (forall fut F fi, length (b_pend b ++ fut) < F -> rref_from F st (b_pend b ++ fut) fi = consf f (rref F r (b_pend b' ++ fut) fi)).
 Proof. intros Hwf Hb Hst Ep. via_srtu Hwf Hb Hst Ep st b. eapply rparse_got; eassumption. Qed.
 Lemma rtu_err st b st' b' e : wf b -> bytes (b_pend b) -> rst_ok st -> rtu_parse p st b = (st', b', Err e) ->
-  (exists k, b' = consume k b /\ k <= buf_len b) /\
+  (exists k, b' = consume k b /\ k <= buf_len b /\ rcons_need st <= k) /\
   (forall fut F fi, length (b_pend b ++ fut) < F -> rref_from F st (b_pend b ++ fut) fi = ([], EndBad e)).
 Proof. intros Hwf Hb Hst Ep. via_srtu Hwf Hb Hst Ep st b. eapply rparse_bad; eassumption. Qed.
 Lemma rtu_panic st b st' b' : wf b -> bytes (b_pend b) -> rst_ok st -> rtu_parse p st b <> (st', b', Panic).
@@ -408,6 +408,9 @@ Definition rtu_run_ref := run_ref rstate (PRtu p) (rtu_parse p) Start rst_ok rne
   bytes bytes_nil bytes_app bytes_firstn bytes_skipn
   H_mk (fun _ => eq_refl) I (fun _ _ _ => eq_refl) ltac:(cbn; lia) rneed_cap rstuck rtu_none rtu_some rtu_err rtu_panic.
 Definition rtu_session_ref := session_ref rstate (PRtu p) (rtu_parse p) Start rst_ok rneed rcons_need (fun F s fi => rref F r s fi) rref_from
+  bytes bytes_nil bytes_app bytes_firstn bytes_skipn
+  H_mk (fun _ => eq_refl) I (fun _ _ _ => eq_refl) ltac:(cbn; lia) rneed_cap rstuck rtu_none rtu_some rtu_err rtu_panic.
+Definition rtu_run_total := run_total rstate (PRtu p) (rtu_parse p) Start rst_ok rneed rcons_need (fun F s fi => rref F r s fi) rref_from
   bytes bytes_nil bytes_app bytes_firstn bytes_skipn
   H_mk (fun _ => eq_refl) I (fun _ _ _ => eq_refl) ltac:(cbn; lia) rneed_cap rstuck rtu_none rtu_some rtu_err rtu_panic.
 Definition rtu_nf_no_panic := nf_no_panic rstate (PRtu p) (rtu_parse p) Start rst_ok rneed rcons_need (fun F s fi => rref F r s fi) rref_from
